@@ -66,11 +66,15 @@ let fmt t = let k = int t in
     | "L" -> let n = int t in Lit (times n (fun () -> num t))
     | "H" -> Hole (nat_of_int (int t))
     | _ -> raise Bad)
-let notation t =
-  let ar = int t in let d = term t in let f = fmt t in
-  { nt_label = []; nt_arity = nat_of_int ar; nt_def = d; nt_fmt = f }
-
 let nots : (int, notation) Hashtbl.t = Hashtbl.create 64
+let notation t =
+  let s = next t in
+  if String.length s > 0 && s.[0] = '#' then
+    (try Hashtbl.find nots (int_of_string (String.sub s 1 (String.length s - 1))) with Not_found | Failure _ -> raise Bad)
+  else begin
+    let ar = (try int_of_string s with Failure _ -> raise Bad) in let d = term t in let f = fmt t in
+    { nt_label = []; nt_arity = nat_of_int ar; nt_def = d; nt_fmt = f }
+  end
 let syms : (n * str) list ref = ref []
 
 let fuelled = function None -> "FUEL" | Some s -> s
@@ -102,6 +106,26 @@ let run line =
             fuelled (Option.map (function None -> "NONE" | Some d -> showd d) (match_single f n p i d))
   | "ML" -> let k = int t in let eqs = times k (fun () -> let p = term t in let i = term t in (p, i)) in
             fuelled (Option.map (function None -> "NONE" | Some d -> showd d) (match_list f n eqs []))
+  | "MSI" -> let p = term t in let i = term t in let d = delta t in
+      (match match_single f n p i d with
+       | None -> "FUEL" | Some None -> "NONE"
+       | Some (Some th) ->
+         (match py_inst f n p th with None -> "FUEL" | Some r ->
+           (match py_eq f n r i with None -> "FUEL" | Some b -> b2s b)))
+  | "MLI" -> let k = int t in let eqs = times k (fun () -> let p = term t in let i = term t in (p, i)) in
+      (match match_list f n eqs [] with
+       | None -> "FUEL" | Some None -> "NONE"
+       | Some (Some th) ->
+         (try b2s (List.for_all (fun (p, i) ->
+              match py_inst f n p th with None -> raise Exit | Some r ->
+                (match py_eq f n r i with None -> raise Exit | Some b -> b)) eqs)
+          with Exit -> "FUEL"))
+  | "RT" -> let nt = notation t in let k = int t in let args = times k (fun () -> term t) in
+      (match ncall nt args with None -> "RAISE" | Some app ->
+        (match nassert f n nt app with None -> "FUEL" | Some None -> "RAISE"
+         | Some (Some res) ->
+           (match ncall nt res with None -> "RAISE" | Some app' ->
+             (match py_eq f n app' app with None -> "FUEL" | Some b -> b2s b ^ " " ^ tuple res))))
   | "NC" -> let nt = notation t in let k = int t in let args = times k (fun () -> term t) in
             (match ncall nt args with None -> "RAISE" | Some p -> show p)
   | "NM" -> let nt = notation t in let p = term t in
